@@ -128,6 +128,8 @@ def run(ctx):
     check_raw_balance_single_consumer(ctx, model, T, "C04-V1")
     from .poolvalue import check_fee_deduction_all_kinds
     check_fee_deduction_all_kinds(ctx, model, T, "C04-V1")
+    from .poolvalue import check_reserves_net_of_fees
+    check_reserves_net_of_fees(ctx, model, T, "C04-V1")
     check_v2_v3_pool(ctx, model, T, "C04-V3")
     check_v4_min_liquidity(ctx, model, "%s::commands::provide_liquidity" % T, "C04-V4")
     check_no_lp_outflow(ctx, model, T, "C04-V4", "liquidity_token")
@@ -221,6 +223,12 @@ def check_deposit_wiring(ctx, model):
     w = ctx.view(CURVE + "::compute_d", "C04-A5")
     if w is not None:
         check_symmetric(ctx, "C04-A5", w, (2, 3, 4), CURVE + "::compute_d")
+    from .stablemath import check_no_self_comparison
+    if w is not None:
+        check_no_self_comparison(ctx, "C04-A5", w, CURVE + "::compute_d")
+    yv = ctx.view(CURVE + "::compute_y_raw", "C04-A5")
+    if yv is not None:
+        check_no_self_comparison(ctx, "C04-A5", yv, CURVE + "::compute_y_raw")
     from .stablemath import check_newton_step, check_solver_bounds_agree
     check_solver_bounds_agree(ctx, "C04-A5")
     nd = ctx.view(CURVE + "::compute_next_d", "C04-A5")
